@@ -145,6 +145,7 @@ func ruleC12TokenWhitespace(c *Ctx) {
 	}
 	c.CallSites(n)
 	c.Floor("C12.TOKENWS", 1)
+	ruleDatetimeTokenWS(c, "C12.DATETIMEWS")
 }
 
 // ---- PREC ------------------------------------------------------------------------------------
